@@ -94,10 +94,10 @@ def _(self, job_id, dataset_id, result):
     r = self.jobs[job_id].results
     # "a result is returned exactly as uploaded and only for the job and dataset it was uploaded for"
     ensures(dataset_id in r and same(r[dataset_id], result), tag="stored-as-uploaded", top=True)
-    ensures(forall(DatasetId, lambda d: implies(d != dataset_id, (d in r) == old(d in r) and implies(d in r, same(r[d], old(r[d]))))),
+    ensures(forall(Any, lambda d: implies(not same(d, dataset_id), (d in r) == old(d in r) and implies(d in r, same(r[d], old(r[d]))))),
             tag="other-datasets-untouched", top=True)
     # ... "only for the job it was uploaded for": no other job's results change
-    ensures(forall(str, DatasetId, lambda k, d: implies(k in self.jobs and k != job_id,
+    ensures(forall(str, Any, lambda k, d: implies(k in self.jobs and k != job_id,
                                                         (d in self.jobs[k].results) == old(d in self.jobs[k].results)
                                                         and implies(d in self.jobs[k].results, same(self.jobs[k].results[d], old(self.jobs[k].results[d]))))),
             tag="other-jobs-results-untouched", top=True)
@@ -111,3 +111,32 @@ def _(self, job_id, dataset_id):
     raises(KeyError, when=not known, tag="unknown-job-or-dataset-is-an-error", top=True)
     ensures(same(result(), self.jobs[job_id].results[dataset_id]), tag="returns-uploaded-bytes", top=True)
     modifies()
+
+
+treat_as_record("cascade.controller.report:ControllerReport")
+pure_function("cascade.controller.report:deserialize", returns="ControllerReport", module="cascade.controller.report")
+external_returns(recv="bytes")
+
+
+@contract("cascade.gateway.server:handle_controller")
+def _(socket, jobs):
+    types(socket="zmq.Socket")
+    observes(raw="recv")
+    rep = deserialize(raw)
+    res = rep.results
+    requires(rep.job_id in jobs.jobs)
+    requires(forall(str, lambda k: implies(k in jobs.jobs, key_of(jobs.jobs[k], "jobs") == k and same(owner_of(jobs.jobs[k].results, "results"), jobs.jobs[k]))))
+    store = jobs.jobs[rep.job_id].results
+    # a report names each dataset at most once (the Reporter uploads one result per report); duplicates inside ONE report are outside the claim
+    requires(forall(int, int, lambda a, b: implies(0 <= a and a < b and b < len(res), typed(res[a], tuple[DatasetId, bytes])[0] != typed(res[b], tuple[DatasetId, bytes])[0])))
+    # "a result is returned exactly as uploaded ... for the job and dataset it was uploaded for": EVERY result carried by a report is
+    # stored under its dataset, unchanged - whatever else the report carries (progress, shutdown notice)
+    ensures(forall(int, lambda i: implies(0 <= i and i < len(res), typed(res[i], tuple[DatasetId, bytes])[0] in store
+                                          and same(store[typed(res[i], tuple[DatasetId, bytes])[0]], typed(res[i], tuple[DatasetId, bytes])[1]))),
+            tag="every-uploaded-result-is-stored-as-uploaded", top=True)
+    invariant(0, forall(int, lambda i: implies(0 <= i and i < loop0_index, typed(res[i], tuple[DatasetId, bytes])[0] in store
+                                               and same(store[typed(res[i], tuple[DatasetId, bytes])[0]], typed(res[i], tuple[DatasetId, bytes])[1]))))
+    invariant(0, rep.job_id in jobs.jobs)
+    invariant(0, forall(str, lambda k: (k in jobs.jobs) == old(k in jobs.jobs) and implies(k in jobs.jobs, same(jobs.jobs[k], old(jobs.jobs[k])) and same(jobs.jobs[k].results, old(jobs.jobs[k].results)))))
+    invariant(0, forall(str, lambda k: implies(k in jobs.jobs, key_of(jobs.jobs[k], "jobs") == k and same(owner_of(jobs.jobs[k].results, "results"), jobs.jobs[k]))))
+    modifies(jobs.jobs[rep.job_id].results, "progress", "last_seen", "events")
